@@ -168,6 +168,7 @@ def gen_case(rnd):
     if pair:
         out['pair'] = pair
     out['refs'] = rnd.random() < 0.3
+    out['noelem'] = rnd.random() < 0.25
     free = [r for r in sorted(resdefs) if not (pair and r in (pair['x'], pair['y']))]
     if free and rnd.random() < 0.15:
         # a second mapping for one residue type (an alternative representation from an extra mapping directory): it fits wherever the
@@ -272,6 +273,12 @@ def build(case):
                      position=np.array([(k * 7 % 13) / 13.0, (k * 5 % 11) / 11.0, (k * 3 % 7) / 7.0]))
         if case.get('icodes') and case['icodes'][ri]:
             mol.nodes[k]['insertion_code'] = case['icodes'][ri]
+        if case.get('noelem') and hash_int([k, case['tag']]) % 9 == 0 and not an.startswith('H'):
+            # hand-built molecules: some non-hydrogen atoms carry no element attribute at all, or an empty one
+            if hash_int([k, 'e']) % 2:
+                del mol.nodes[k]['element']
+            else:
+                mol.nodes[k]['element'] = ''
         if len(entry) > 3:
             mol.nodes[k]['atomname'] = entry[3]
             mol.nodes[k]['_old_atomname'] = an
@@ -302,7 +309,7 @@ def placements_of(case, mol):
 
         def node_ok(g, p, rname=rname):
             d = mol.nodes[g]
-            return d.get('_old_atomname', d['atomname']) == p and d['resname'] == rname and d['element'] == p[0]
+            return d.get('_old_atomname', d['atomname']) == p and d['resname'] == rname and d.get('element') == p[0]
 
         def edge_ok(g1, g2, p1, p2):
             return res_id(mol, g1) == res_id(mol, g2)
@@ -321,7 +328,7 @@ def placements_of(case, mol):
         def node_ok2(g, p):
             d = mol.nodes[g]
             q = P.nodes[p]
-            return d.get('_old_atomname', d['atomname']) == q['an'] and d['resname'] == q['rn'] and d['element'] == q['an'][0]
+            return d.get('_old_atomname', d['atomname']) == q['an'] and d['resname'] == q['rn'] and d.get('element') == q['an'][0]
 
         def edge_ok2(g1, g2, p1, p2):
             # an edge inside one residue of the pattern must lie inside one residue of the molecule, and vice versa
@@ -379,7 +386,7 @@ def check_synthetic(case, b):
     covered = set()
     for p in particles:
         covered.update(p['cons'])
-    unc = [k for k in mol.nodes if k not in covered and mol.nodes[k]['element'] != 'H']
+    unc = [k for k in mol.nodes if k not in covered and mol.nodes[k].get('element') != 'H']
     info['uncovered_nonH'] = len(unc)
     if bool(unc) != unmapped_warn:
         return ('warning/unmapped-atom', {'uncovered_non_hydrogen_atoms': unc[:6], 'warning_logged': unmapped_warn}), info
@@ -414,7 +421,7 @@ def check_synthetic(case, b):
         names_ = [pl[pi][1]] if pl[pi][1] != '+PAIR' else [case['pair']['x'], case['pair']['y']]
         groups = [[n for n in ns_all if loc_of[n] == loc] for loc in range(len(names_))]
         for rn, ns in zip(names_, groups):
-            rd = case['resdefs'][rn]
+            rd = case['resdefs'][rn] if rn != '+ALT' else {'angles': False}
             for x, y in zip(ns, ns[1:]):
                 exp_edges.add(frozenset((x, y)))
                 exp_bonds.append((x, y))
